@@ -56,10 +56,13 @@ VERBS = {"GetOperation": ["get"], "ListOperations": ["get"], "DeleteOperation": 
          "TestIamPermissions": ["post"], "GetLocation": ["get"], "ListLocations": ["get"]}
 
 
-def gen_binding(r, m, avoid=(), body_like=None):
+_ANY = object()
+
+
+def gen_binding(r, m, avoid=(), body_like=None, force_pat=_ANY):
     pats = [p for p in PATTERNS if p not in avoid and (p or "").split("/")[0] not in {(a or "").split("/")[0] for a in avoid}
             and not (avoid and p in ("**", "*", None))]
-    pat = r.pick(pats)
+    pat = r.pick(pats) if force_pat is _ANY else force_pat
     var = ROUTING[m]
     prefix = r.pick(["/v1/", "/v1beta1/", "/compute/v1/", "/"])
     suffix = r.pick(SUFFIX.get(m, [""]) + ([""] if r.maybe(0.1) else []))
@@ -74,9 +77,28 @@ def gen_binding(r, m, avoid=(), body_like=None):
     return {"verb": verb, "uri": uri, "body": body, "pattern": pat}
 
 
-def gen_rule(r, m, mixed=False):
+def overlapping_binding(r, main, m):
+    """an additional binding on the SAME path template as the primary one (same URI, or the URI plus a custom verb),
+    differing in verb and body: every request matching it also matches the primary binding, which must win"""
+    b = dict(main)
+    if main["body"]:
+        b["verb"], b["body"] = r.pick(["get", "delete"]), ""
+    else:
+        b["verb"], b["body"] = r.pick(["post", "put", "patch"]), "*"
+    if b["verb"] == main["verb"]:
+        b["verb"] = "patch" if main["verb"] != "patch" else "post"
+    if r.maybe(0.5) and ":" not in main["uri"]:
+        b["uri"] = main["uri"] + ":" + m[0].lower() + m[1:]
+    return b
+
+
+def gen_rule(r, m, mixed=False, overlap=None):
     main = gen_binding(r, m)
     rule = {"selector": f"{API_OF[m]}.{m}", **main, "additional": []}
+    if overlap is None:
+        overlap = r.maybe(0.12)
+    if overlap:
+        rule["additional"].append(overlapping_binding(r, main, m))
     if r.maybe(0.25) or mixed:
         avoid = [main["pattern"]]
         for _ in range(r.randint(1, 2)):
@@ -383,13 +405,20 @@ def flatten(prefix, v, out):
     return out
 
 
-def expected_rest(cfg, m, jf):
-    """verb, path, body, query per the selected binding of the rule (first binding whose template the value matches)"""
+def yaml_http_options(cfg, m):
+    """the bindings of the YAML rule in declared order (primary, then additional_bindings), unparseable ones dropped"""
+    ru = effective_rule(cfg, m)
+    return [[b["verb"], b["uri"], b["body"] or None] for b in [ru] + ru["additional"] if b["verb"] not in ("", "custom") and b["uri"]]
+
+
+def expected_rest(cfg, m, jf, skip=()):
+    """verb, path, body, query per the binding the rule prescribes: the FIRST binding, in the YAML's declared order
+    (primary, then additional_bindings), whose path template the request's fields match (api-core transcode semantics)"""
     ru = effective_rule(cfg, m)
     var = ROUTING[m]
     value = jf.get(var, "")
     for k, b in enumerate([ru] + ru["additional"]):
-        if b["verb"] in ("", "custom"):
+        if b["verb"] in ("", "custom") or k in skip:
             continue
         if value and re.match(pat_regex(b["pattern"]), value):
             path = re.sub(r"\{[^}]*\}", lambda _: value, b["uri"])
@@ -494,6 +523,13 @@ def judge(ctx, cfg, obs, label=""):
             if (v["input"].lstrip("."), v["output"].lstrip(".")) != TYPES[m]:
                 ctx.fail("selection:types", f"{m} selected with types {v['input']} -> {v['output']}", dict(payload, method=m))
             ru = effective_rule(cfg, m)
+            if ru and obs["http"].get(m) != yaml_http_options(cfg, m):
+                want_o, got_o = yaml_http_options(cfg, m), obs["http"].get(m)
+                if got_o is not None and sorted(map(str, got_o)) == sorted(map(str, want_o)):
+                    ctx.fail("rest-binding-order:http-options", f"mixin_http_options[{m}] lists the bindings as {got_o}; the YAML rule declares them "
+                             f"as {want_o} (primary first, then additional_bindings in order): transcoding takes the first match", dict(payload, method=m))
+                else:
+                    ctx.fail("selection:http-options", f"mixin_http_options[{m}] = {got_o}, the YAML rule's bindings are {want_o}", dict(payload, method=m))
             if ru and v["main"] != [ru["verb"], ru["uri"] if ru["verb"] else "", ru["body"]]:
                 ctx.fail("selection:rule", f"{m} carries rule {v['main']}, the YAML's (last) rule is {[ru['verb'], ru['uri'], ru['body']]}", dict(payload, method=m))
     if not cfg.get("t3", True):
@@ -656,9 +692,19 @@ def judge(ctx, cfg, obs, label=""):
             first_has_body = bool(ru["body"])
             sel_b = ([ru] + ru["additional"])[er["binding"]]
             mixed = bool(sel_b["body"]) != first_has_body
-            ctx.count("rest_binding", f"{'additional' if er['binding'] else 'primary'}:{'mixed-body' if mixed else 'uniform'}")
+            nmatch = 1
+            other = expected_rest(cfg, m, jfs[m], skip=(er["binding"],))
+            while other is not None and nmatch < 6:
+                nmatch += 1
+                if got["outcome"] == "sent" and all(got[k] == other[k] for k in ("verb", "path", "body")):
+                    break
+                other = expected_rest(cfg, m, jfs[m], skip=tuple(range(other["binding"] + 1)) + (er["binding"],))
+            ctx.count("rest_binding", f"{'additional' if er['binding'] else 'primary'}:{'mixed-body' if mixed else 'uniform'}"
+                      f"{':several-bindings-match' if nmatch > 1 else ''}")
+            # the OPEN finding, narrowly: the binding the YAML prescribes is an ADDITIONAL one whose body-ness differs from the
+            # primary binding's, verb and path on the wire are that binding's, and only the body is lost / KeyError('body') is raised
             if got["outcome"] != "sent":
-                if mixed:
+                if mixed and er["binding"] > 0 and not sel_b["body"] and got["outcome"] == "KeyError":
                     ctx.fail("rest-body-follows-first-binding", f"rest {snake(m)} raised {got['outcome']}: the selected additional binding has no body "
                              f"but the rule's first binding has one", p2)
                 else:
@@ -666,9 +712,15 @@ def judge(ctx, cfg, obs, label=""):
                 continue
             bad = [k for k in ("verb", "path", "body") if got[k] != er[k]]
             if bad:
-                if mixed and bad == ["body"]:
+                if mixed and er["binding"] > 0 and bad == ["body"] and sel_b["body"] and got["body"] is None:
                     ctx.fail("rest-body-follows-first-binding", f"rest {snake(m)}: selected binding {sel_b['verb'].upper()} {sel_b['uri']} has body "
                              f"{sel_b['body']!r} but the call carried body {got['body']!r} (first binding's body is {ru['body']!r})", p2)
+                elif other is not None:
+                    ob = ([ru] + ru["additional"])[other["binding"]]
+                    ctx.fail("rest-binding-order:" + "+".join(bad), f"rest {snake(m)}: the request matches binding #{er['binding']} "
+                             f"({sel_b['verb'].upper()} {sel_b['uri']} body={sel_b['body']!r}) first in the YAML's declared order, but the call went out as "
+                             f"{got['verb']} {got['path']} body={got['body']} — that is binding #{other['binding']} ({ob['verb'].upper()} {ob['uri']} "
+                             f"body={ob['body']!r})", p2)
                 else:
                     ctx.fail("rest:" + "+".join(bad), f"rest {snake(m)}: sent {got['verb']} {got['path']} body={got['body']}, the rule says "
                              f"{er['verb']} {er['path']} body={er['body']}", p2)
